@@ -27,7 +27,22 @@ from fractions import Fraction
 from vf.cvc import (CExec, State, Arr, Ptr, Oblig, ite, toreal, uf, CUnsupported, func_params, func_body, IntS, RealS)
 from vf.core import R
 from vf import smt
-from vf.helpers import prove, prove_eq
+from vf.helpers import prove as _prove, prove_eq as _prove_eq
+
+_FILTER = None      # when set (list of substrings), only obligations whose id matches are sent to the solvers (used by C04, which needs the
+                    # absorbing-term and frame obligations of every kernel but not the rest of C02)
+
+
+def prove(oid, *a, **k):
+    if _FILTER and not any(s in oid for s in _FILTER):
+        return R(oid, 'proof', 'skipped')
+    return _prove(oid, *a, **k)
+
+
+def prove_eq(oid, *a, **k):
+    if _FILTER and not any(s in oid for s in _FILTER):
+        return R(oid, 'proof', 'skipped')
+    return _prove_eq(oid, *a, **k)
 from contracts import c_shared as CS
 from contracts.c_verify import _resolve
 
@@ -114,13 +129,14 @@ def _assigned(n, out):
 
 
 class KernelCheck:
-    def __init__(self, relpath, fname):
+    def __init__(self, relpath, fname, pid='C02', only=None):
         self.relpath, self.fname = relpath, fname
+        self.pid, self.only = pid, only
         m = re.match(r'implicit_(precalc_)?(\d)D([xyzab])$', fname)
         self.precalc = bool(m.group(1))
         self.K = int(m.group(2))
         self.p = AXIS[m.group(3)]           # swept axis (0-based)
-        self.oid = 'C02/%s:%s' % (relpath.split('/')[-1], fname)
+        self.oid = '%s/%s:%s' % (self.pid, relpath.split('/')[-1], fname)
         self.fn = '%s::%s' % (relpath, fname)
         self.results = []
         self.lines = []                     # per-line records
@@ -128,7 +144,9 @@ class KernelCheck:
 
     # ---- driver
     def run(self):
+        global _FILTER
         t0 = time.time()
+        _FILTER = self.only
         try:
             self._run()
         except CUnsupported as e:
@@ -136,7 +154,7 @@ class KernelCheck:
                       seconds=time.time() - t0)]
         except KeyError as e:
             return [R(self.oid, 'proof', 'undecided', detail='contract no longer matches the source (missing %s)' % e, func=self.fn)]
-        return self.results
+        return [r for r in self.results if r['verdict'] != 'skipped' and (not self.only or any(s in r['id'] for s in self.only))]
 
     def _run(self):
         contracts = dict(CS.CONTRACTS)
@@ -447,5 +465,5 @@ class KernelCheck:
                     absn=ite(z3.And(all1, Mlast >= 0), absn_raw, z3.RealVal(0)))
 
 
-def verify_kernel(relpath, fname):
-    return KernelCheck(relpath, fname).run()
+def verify_kernel(relpath, fname, pid='C02', only=None):
+    return KernelCheck(relpath, fname, pid, only).run()
